@@ -132,6 +132,14 @@ type HarnessError struct{ Msg string }
 
 func (e HarnessError) Error() string { return "harness error: " + e.Msg }
 
+// LibraryHang is raised by the cooperative scheduler when a goroutine it has released does not reach its
+// next synchronisation operation: between two hooks there is only straight-line library code, so the goroutine
+// is blocked in something the schedule does not control (a lock that is not the one the hooks announced).
+// The property requires the call to return: it is reported as a violation, not as a harness error.
+type LibraryHang struct{ Msg string }
+
+func (e LibraryHang) Error() string { return "library hang: " + e.Msg }
+
 func (d *DFSSource) Choose(n int, label string) int {
 	if n <= 1 {
 		return 0
